@@ -408,6 +408,29 @@ def rule_m3(repo, res):
         res.oblige("M3", f"{CONTAINER}.{nm}() returns {v}(self)", ok=ok)
         if not ok:
             res.add(Finding("M3", f"{CONTAINER}.{nm}", f"{v}(self)", f"{CONTAINER}.{nm}() no longer returns {v}(self)"))
+    # list-view methods (order, multiplicity, equality) never consult the dict storage: it maps key -> values and
+    # does not record how pairs of different keys are interleaved
+    ci0 = repo.cls(CONTAINER)
+    for nm in ("__eq__", "__ne__", "__iter__", "__len__", "__reversed__", "keys", "values", "items", "key_index", "copy", "index", "count"):
+        fn = ci0.methods.get(nm)
+        if fn is None:
+            continue
+        bad = []
+        for n in ast.walk(fn):
+            if isinstance(n, ast.Name) and n.id in dal:
+                bad.append(n.id)
+            if isinstance(n, ast.Attribute) and isinstance(n.value, ast.Name) and n.value.id == "dict":
+                bad.append(norm(n))
+            if isinstance(n, ast.Call) and isinstance(n.func, ast.Attribute) and isinstance(n.func.value, ast.Call) \
+                    and norm(n.func.value.func) == "super":
+                bad.append(norm(n.func))
+        res.oblige("M3", f"{CONTAINER}.{nm} is decided from the item list only (never from the dict storage)", ok=not bad)
+        if bad:
+            res.add(Finding("M3", f"{CONTAINER}.{nm}", ",".join(sorted(set(bad))),
+                            f"{CONTAINER}.{nm} consults the dict storage ({sorted(set(bad))}); the storage maps each key to its "
+                            "values and does not record how pairs of different keys are interleaved (nor, for equality, "
+                            "anything the item list does not), so this list-view operation can disagree with the ordered "
+                            "list of pairs", where=f"pvl/collections.py:{fn.lineno}"))
     # accessors read the representation they are documented for
     items = item_attr(repo)
     ci = repo.cls(CONTAINER)
